@@ -94,12 +94,25 @@ func setClientSubnet(req *bfe_basic.Request, dnsMsg *dns.Msg) {
 		Address:       cip,
 	}
 
-	opt := new(dns.OPT)
-	opt.Hdr.Name = "."
-	opt.Hdr.Rrtype = dns.TypeOPT
-	opt.SetUDPSize(dns.DefaultMsgSize)
-	opt.Option = append(opt.Option, subnet)
-	dnsMsg.Extra = append(dnsMsg.Extra, opt)
+	// a message must not carry more than one OPT RR (RFC 6891 Section 6.1.1),
+	// so use the OPT RR of client query if any
+	opt := dnsMsg.IsEdns0()
+	if opt == nil {
+		opt = new(dns.OPT)
+		opt.Hdr.Name = "."
+		opt.Hdr.Rrtype = dns.TypeOPT
+		opt.SetUDPSize(dns.DefaultMsgSize)
+		dnsMsg.Extra = append(dnsMsg.Extra, opt)
+	}
+
+	// keep other options of client query, replace client subnet option if any
+	options := make([]dns.EDNS0, 0, len(opt.Option)+1)
+	for _, option := range opt.Option {
+		if option.Option() != dns.EDNS0SUBNET {
+			options = append(options, option)
+		}
+	}
+	opt.Option = append(options, subnet)
 }
 
 func RequestToDnsMsg(req *bfe_basic.Request) (*dns.Msg, error) {
